@@ -98,7 +98,7 @@ func sFmtMatches(ms Matches) string {
 func TestVerifC13(t *testing.T) {
 	e := vStart(t, "C13")
 	defer e.finish()
-	n := e.pick(3000, 100000)
+	n := e.pick(12000, 200000)
 	lower := NormalizeFunc(strings.ToLower)
 	for idx := 0; idx < n; idx++ {
 		idx := idx
